@@ -243,4 +243,51 @@ theorem dmapFrames_le (lk : Bytes → C04.Dmap.Kind) (utf8 : Bytes → Bool) :
         · split <;> omega
       · omega
 
+/-! ### HTTP with any integer Content-Length: the header block is always consumed -/
+
+theorem sliceFrom_le (body : Bytes) (cl : Int) : (sliceFrom body cl).length ≤ body.length := by
+  unfold sliceFrom
+  split <;> simp only [List.length_drop] <;> omega
+
+theorem httpZ_progress (P : HttpParamsZ) : Progress (httpZ P) := by
+  intro b m r h
+  simp only [httpZ] at h
+  split at h
+  · cases h
+  · split at h
+    · cases h
+    · rename_i hdr body hs
+      have hl := C02.splitSep_length b hdr body hs
+      split at h
+      · cases h
+      · split at h
+        · cases h
+        · split at h
+          · cases h
+            have := sliceFrom_le body ‹Int›
+            omega
+          · cases h
+
+theorem be_two_lt (x : Bytes) (h : x.length ≤ 2) : C02.be x < 65536 := by
+  match x, h with
+  | [], _ => simp [C02.be]
+  | [a], _ =>
+    have := a.toNat_lt
+    simp [C02.be]; omega
+  | [a, b], _ =>
+    have := a.toNat_lt
+    have := b.toNat_lt
+    simp [C02.be]; omega
+
+theorem controlRounds_le (data : Bytes) (n : Nat) (h : controlRounds data = some n) : n ≤ 65535 := by
+  unfold controlRounds at h
+  split at h
+  · split at h
+    · split at h
+      · cases h
+        exact Nat.le_of_lt_succ (be_two_lt _ (by rw [List.length_take]; exact Nat.min_le_left _ _))
+      · cases h
+    · cases h; omega
+  · cases h
+
 end PyatvModel.C05
